@@ -4,7 +4,8 @@
 usage: vcheck/seeded_regress.py [--tier quick] [--seed N] [id ...]
 
 For each seeded change: apply seeded/<id>/patch.diff to a scratch git worktree of /repo (created under /tmp and removed
-at the end; /repo itself is never touched), run the check of the target property with VERIF_REPO=<worktree> and, when
+at the end; /repo itself is never touched; meta.json may name a "base_commit" when the change was written against the
+tree before a later "fix:" commit rewrote the same lines), run the check of the target property with VERIF_REPO=<worktree> and, when
 that one stays silent, the other checks recorded in meta.json as having caught it.  Writes seeded/REGRESSION.json.
 Exit 0 when every change is detected by at least one check, 1 otherwise.
 """
@@ -63,11 +64,14 @@ def main():
         return 2
     results = {}
     missed = []
+    head = sh("git -C %s rev-parse HEAD" % REPO).stdout.strip()
     try:
         for sid in ids:
             meta = json.load(open(os.path.join(sdir, sid, "meta.json")))
             target = meta["property"]
-            sh("git checkout -q -- . && git clean -fdq src include", cwd=wt)
+            # (reset --hard: a three-way apply also stages what it merged)
+            base = meta.get("base_commit", "HEAD")
+            sh("git reset -q --hard && git clean -fdq src include && git checkout -q --detach %s" % (head if base == "HEAD" else base), cwd=wt)
             ap = sh("git apply %s" % os.path.join(sdir, sid, "patch.diff"), cwd=wt)
             if ap.returncode != 0:
                 ap = sh("git apply -3 %s" % os.path.join(sdir, sid, "patch.diff"), cwd=wt)
@@ -94,12 +98,21 @@ def main():
     finally:
         sh("git -C %s worktree remove --force %s" % (REPO, wt))
         sh("git -C %s worktree prune" % REPO)
-    head = sh("git -C %s rev-parse HEAD" % REPO).stdout.strip()
     vhead = sh("git -C %s rev-parse HEAD" % ROOT).stdout.strip()
     out = {"repo_commit": head, "verif_commit_at_start": vhead, "tier": tier, "seed": seed, "changes": len(ids),
            "detected": len(ids) - len(missed), "missed": missed, "results": results}
-    if len(ids) > 20:
-        json.dump(out, open(os.path.join(sdir, "REGRESSION.json"), "w"), indent=1)
+    rp = os.path.join(sdir, "REGRESSION.json")
+    if len(ids) <= 20 and os.path.exists(rp):
+        # a partial re-run updates the entries it covers
+        old = json.load(open(rp))
+        old["results"].update(results)
+        old["missed"] = sorted(k for k, v in old["results"].items() if v["status"] != "detected")
+        old["changes"] = len(old["results"])
+        old["detected"] = old["changes"] - len(old["missed"])
+        old["repo_commit"] = head
+        old["verif_commit_at_last_update"] = vhead
+        out = old
+    json.dump(out, open(rp, "w"), indent=1)
     print("detected %d of %d; missed: %s" % (len(ids) - len(missed), len(ids), missed))
     return 1 if missed else 0
 
